@@ -67,6 +67,9 @@
   # fresh buffer per op so that the result length is the op's own byte count
   (def r (f (ends [i e]) n))
   (when (and r sk) (buffer/push (sink i e) r))
+  # a sink far beyond everything that was ever written means duplicated delivery: stop instead of eating memory
+  (when (> (length (sink i e)) (get params :maxsink 100000000))
+    (print "OVERFLOW " i " " e) (flush) (os/exit 3))
   r)
 
 (defn run-op [name idx op]
